@@ -1,7 +1,10 @@
 //! C19 — the disassembly text of an instruction assembles back to that instruction.
 use trion::arm6m::asm::{ImmReg, Instruction};
 use trion::arm6m::reg::Register;
+use trion::asm::arcob::Arcob;
 use trion::asm::directive::DirectiveList;
+use trion::text::parse::{Argument, ElementValue, Parser};
+use trion::text::token::Number;
 
 use super::*;
 
@@ -238,6 +241,77 @@ fn wide_sample(rng: &mut Rng) -> (u16, u16)
 	}
 }
 
+/// The hypotheses `EvalOK` of the theorem `show_assembles`, checked on the REAL `evaluate` over every operand
+/// shape a decoded instruction can print: integer literals and register names evaluate to themselves, a label
+/// defined as a constant evaluates to its value, and `[R + x]` evaluates to an address operand which `addr_off`
+/// (model `Front.addrOff`) reads exactly as it reads `[R + x]` itself.
+fn evalspec_audit(cx: &mut Cx, dirs: &DirectiveList)
+{
+	let empty = env_ctx(&Vec::new(), dirs);
+	let mut reqs: Vec<String> = Vec::new();
+	let mut what: Vec<String> = Vec::new();
+	let names = ["R0", "R1", "R2", "R3", "R4", "R5", "R6", "R7", "R8", "R9", "R10", "R11", "R12", "SP", "LR", "PC"];
+	let mut n = 0u64;
+	for ad in names
+	{
+		let mut offs: Vec<String> = (0..=1024).map(|k| k.to_string()).collect();
+		offs.extend([65535i64, 2147483647, 4294967295].iter().map(|k| k.to_string()));
+		offs.extend(names.iter().map(|s| s.to_string()));
+		for o in offs
+		{
+			let text = format!("X [{ad} + {o}];");
+			let Some(Ok(el)) = Parser::new(text.as_bytes()).next() else {cx.report.oracle_fail(format!("evalspec {text}"), "does not parse"); continue;};
+			let ElementValue::Instruction{args, ..} = el.value else {continue;};
+			let args = Argument::vec_into_owned(args);
+			let out = eval_out(&args[0], &empty);
+			n += 1;
+			let Some(rest) = out.strip_prefix("C a ") else
+			{
+				cx.report.oracle_fail(format!("evalspec {text}"), format!("evaluate does not leave a complete address operand: {out}"));
+				continue;
+			};
+			let Argument::Address(inner) = &args[0] else {cx.report.oracle_fail(format!("evalspec {text}"), "not parsed as an address"); continue;};
+			reqs.push(format!("front addroff 2 {rest}"));
+			reqs.push(format!("front addroff 2 {}", arg_str(inner)));
+			what.push(text);
+		}
+	}
+	let replies = cx.model.ask_many(&reqs);
+	for (k, t) in what.iter().enumerate()
+	{
+		cx.report.case(Some(&replies[2 * k]));
+		if replies[2 * k] != replies[2 * k + 1]
+		{
+			cx.report.disagree("model.front.EvalOK.mem", format!("evalspec {t}"), format!("addrOff(evaluated) = {}", replies[2 * k]), format!("addrOff(written) = {}", replies[2 * k + 1]));
+		}
+	}
+	// literals, register names, labels
+	for v in [0i64, 1, 7, 255, 256, 65535, 1020, 2147483647, 4294967295]
+	{
+		let a = Argument::Constant(Number::Integer(v));
+		let out = eval_out(&a, &empty);
+		n += 1;
+		if out != format!("C c {v}") {cx.report.oracle_fail(format!("evalspec const {v}"), format!("evaluate gives {out}"));}
+	}
+	for r in names
+	{
+		let a = Argument::Identifier(Arcob::Arced(std::sync::Arc::from(r)));
+		let out = eval_out(&a, &empty);
+		n += 1;
+		if out != format!("C {}", arg_str(&a)) {cx.report.oracle_fail(format!("evalspec reg {r}"), format!("evaluate gives {out}"));}
+	}
+	for t in [0u32, 4, 0x2000_0000, 0xFFFF_FFFC, 0xFFFF_FFFF, 0x1234_5678]
+	{
+		let name = format!("l_{t:08X}");
+		let ctx = env_ctx(&vec![(name.clone(), Some(t as i64))], dirs);
+		let a = Argument::Identifier(Arcob::Arced(std::sync::Arc::from(name.as_str())));
+		let out = eval_out(&a, &ctx);
+		n += 1;
+		if out != format!("C c {t}") {cx.report.oracle_fail(format!("evalspec label {name}"), format!("evaluate gives {out}"));}
+	}
+	cx.report.hit_n("EvalOK hypotheses on the real evaluate", n);
+}
+
 pub fn run(cx: &mut Cx)
 {
 	let dirs = dirs();
@@ -259,6 +333,8 @@ non-trivial = assembled case; distinct = distinct (text, address)".to_owned();
 		}
 		return;
 	}
+
+	evalspec_audit(cx, dirs);
 
 	let mut cases: Vec<Case> = Vec::new();
 	let mut n16 = 0u64;
